@@ -83,7 +83,12 @@ func iterStream(cfg *Config) *hx.Stats {
 		iterNestedReadOnly(cfg, st, w, rng, nProg+nNested+p)
 		st.Programs++
 	}
-	iterCheckRequired(cfg, st, append(append([]string{}, iterRequired...), iterNestRequired...))
+	// ... the same over wrapped children and over maps whose keys are containers (iternestx.go)
+	for p := 0; p < nRO && len(st.Violations) <= 20 && st.HarnessErr == ""; p++ {
+		iterNestedExotic(cfg, st, w, rng, nProg+nNested+nRO+p)
+		st.Programs++
+	}
+	iterCheckRequired(cfg, st, append(append(append([]string{}, iterRequired...), iterNestRequired...), iterNestXRequired...))
 	st.TraceLines = w.Lines
 	st.Distinct = iterDistinct
 	atree.VerifSetThreshold(1024)
